@@ -435,13 +435,25 @@ class Attributes(collections.UserDict[str, "_core.Attr"]):
         self._owner = owner
         super().__init__({attr.name: attr for attr in attrs})
 
-    def __setitem__(self, key: str, value: _core.Attr) -> None:
-        """Set an attribute for the node."""
+    def _check_item(self, key: str, value: _core.Attr) -> None:
+        """Check that ``self[key] = value`` is acceptable, without modifying anything."""
         if type(key) is not str:
             raise TypeError(f"Key must be a string, not {type(key)}")
         if not isinstance(value, _core.Attr):
             raise TypeError(f"Value must be an Attr, not {type(value)}")
+
+    def __setitem__(self, key: str, value: _core.Attr) -> None:
+        """Set an attribute for the node."""
+        self._check_item(key, value)
         super().__setitem__(key, value)
+
+    def update(self, other=(), /, **kwargs) -> None:
+        """Update the attributes; all items are checked before the first one is stored."""
+        items = list(dict(other, **kwargs).items())
+        for key, value in items:
+            self._check_item(key, value)
+        for key, value in items:
+            self[key] = value
 
     def add(self, value: _core.Attr) -> None:
         """Add an attribute to the node."""
